@@ -63,7 +63,8 @@ class MailboxSnapshot(MailboxInterface):
         """
         time_part = int(time.time()) % 65535
         rand_part = random.randint(0, 65535)  # noqa: S311
-        return (time_part << 16) + rand_part
+        # UIDVALIDITY is a nz-number (RFC 3501), never zero
+        return ((time_part << 16) + rand_part) or 1
 
     @property
     def flags(self) -> frozenset[Flag]:
